@@ -3,23 +3,34 @@ import itertools
 
 
 def graph_cfg(n_services, svc_edges, tag_carriers=None, tag_requests=None, decorators=None, scopes=None, n_params=0, param_edges=None,
-              svc_param_refs=None, order="asc", ghosts=None, param_sep="", todos=(), edge_style="args"):
+              svc_param_refs=None, order="asc", ghosts=None, param_sep="", todos=(), edge_style="args", repeat=None):
     """svc_edges: set of (i,j) meaning s_i has argument @s_j; tag_carriers: {tag: [i...]}; tag_requests: {i: [tags]};
     decorators: list of (tag, [service indices referenced], [tags requested]); scopes: {i: scope};
     order: "asc" / "desc" order in which references are written; ghosts: {i: "first"|"last"} adds a reference to an undeclared
     service before / after the other arguments of s_i; param_sep: literal text between the references of a parameter"""
     rev = order == "desc"
     cfg = {}
+
+    def rep(refs):
+        """repeat: None; "first" - the first reference is written twice before the others; "each" - every reference twice in a row;
+        "sandwich" - the first reference again after all the others"""
+        if not repeat or not refs:
+            return refs
+        if repeat == "first":
+            return [refs[0]] + refs
+        if repeat == "each":
+            return [x for r_ in refs for x in (r_, r_)]
+        return refs + [refs[0]]
     if n_params:
         ps = {}
         for i in range(n_params):
             refs = sorted((j for (a, j) in (param_edges or ()) if a == i), reverse=rev)
-            ps["p%d" % i] = param_sep.join("%%p%d%%" % j for j in refs) if refs else "v%d" % i
+            ps["p%d" % i] = param_sep.join("%%p%d%%" % j for j in rep(refs)) if refs else "v%d" % i
         cfg["parameters"] = ps
     svcs = {}
     for i in range(n_services):
         sv = {"constructor": "NewA"}
-        args = ["@s%d" % j for j in sorted((j for (a, j) in svc_edges if a == i), reverse=rev)]
+        args = ["@s%d" % j for j in rep(sorted((j for (a, j) in svc_edges if a == i), reverse=rev))]
         args += ["!tagged %s" % t for t in (tag_requests or {}).get(i, [])]
         args += ["%%p%d%%" % j for j in (svc_param_refs or {}).get(i, [])]
         if (ghosts or {}).get(i) == "first":
